@@ -20,7 +20,7 @@ LET = {
     'N': {'fn': 'in_b', 'a': ['x2'], 'ret': 'vs', 'pre': [{'fn': 'in_a', 'a': ['x1'], 'ret': 'vlst'}, {'fn': 'out_a', 'a': ['x1'], 'ret': 'v0'}]},
 }
 STEP_FAULTS = ['key', 'handler', 'unser']
-STEP_BODY = ['exc', 'intr', 'exc-lib']
+STEP_BODY = ['exc', 'intr', 'exc-lib', 'exc-unser']
 STEP_PRE = ['pre-discard', 'pre-force', 'hnone']
 GAP = ['gap-discard', 'gap-force', 'gap-raise', 'gap-intr']
 ENDS = ['ret', 'raise:E1', 'raise:Unser', 'intr']
@@ -89,8 +89,8 @@ def build(case):
         tgt = _call_of(steps[pos]) if pos < len(steps) and kind in STEP_FAULTS + STEP_BODY + STEP_PRE else None
         if kind in STEP_FAULTS:
             tgt['fault'] = kind
-        elif kind in ('exc', 'exc-lib'):
-            tgt['exc'] = 'E1' if kind == 'exc' else 'RKE'
+        elif kind in ('exc', 'exc-lib', 'exc-unser'):
+            tgt['exc'] = {'exc': 'E1', 'exc-lib': 'RKE', 'exc-unser': 'Unser'}[kind]
             tgt.pop('ret', None)
         elif kind == 'intr':
             tgt['intr'] = True
